@@ -237,6 +237,20 @@ func badRequest(w *World, ep, class string) (method, rawQuery string, body []byt
 		body = []byte("this is not json")
 	case "emptyObject":
 		body = []byte("{}")
+	case "emptyBody":
+		body = []byte{}
+	case "truncatedJSON":
+		body = body[:len(body)-2]
+	case "jsonThenGarbage":
+		body = append(body, []byte(" trailing-garbage")...)
+	case "jsonTwice":
+		body = append(append(body, '\n'), body...)
+	case "nullChain":
+		body = []byte(`{"chain":null}`)
+	case "chainWrongType":
+		body = []byte(`{"chain":"` + ctfeenv.B64(w.Subs["x1"].Chain[0]) + `"}`)
+	case "chainElementNumber":
+		body = []byte(`{"chain":[1,2]}`)
 	case "emptyChain":
 		body = []byte(`{"chain":[]}`)
 	case "chainNotBase64":
